@@ -25,6 +25,8 @@ type Query {
   m1: [[Int!]]!
   m2: [[Int]!]
   ek: [Kind]!
+  owned: Owned
+  owneds: [Owned!]
 }
 type Mutation { set(input: Filter!): User ping: Boolean }
 type Subscription { tick: Int! changed(id: ID): User }
@@ -34,6 +36,9 @@ type User implements Node & Named { id: ID! name: String age: Int kind: Kind! fr
 type Post implements Node { id: ID! title: String! author: User! tags: [String!]! }
 type Bot implements Node & Named { id: ID! name: String model: String }
 union Result = User | Post
+interface Owned { owner: Named tags: [String] }
+type Issue implements Owned { owner: Named tags: [String] n: Int }
+type Repo implements Owned { owner: User! tags: [String!]! stars: Int }
 enum Kind { A B }
 input Filter { kind: Kind name: String = "x" ids: [ID!] nested: Filter min: Int! = 0 req: Boolean! }
 scalar Date
